@@ -43,7 +43,9 @@ def seeded():
         title = open(os.path.join(V, "seeded", d, "notes.md")).readline().strip().lstrip("# ").strip()
         title = re.sub(r"^" + re.escape(d) + r"\s*[-—:]+\s*", "", title)
         res = mx.get(d, {})
-        if "error" in res:
+        if "obsolete_since" in meta:
+            det = f"obsolete since fix {meta['obsolete_since']['repo_commit']} (no longer breaks the property; not counted)"
+        elif "error" in res:
             det = "n/a: " + res["error"]
         elif res:
             hits = [f"{c}" + (" (no-failing-input-found)" if r.get("no_failing_input_found") else "") for c, r in res.items() if r.get("violation")]
